@@ -91,6 +91,13 @@ static void scen_c06(int bases, int prefix_ops, int budget) {
         tr("hist %d", h); w_reset(&w);
         tpm2_fresh(h % 3 == 0 ? NULL : (h % 3 == 1 ? PROFILE_DEFAULT_V1 : PROFILE_CUSTOM)); tpm2_startup(&b, 0);
         for (int i = 0; i < prefix_ops; i++) gen_op(&w, &b);
+        /* a CMAC sequence in flight: its cipher state travels in the volatile blob (state version added by fix 9dbaf1f) */
+        if (h % 3 != 2) { while (w.nobj + w.nseq >= 3 && w.nobj) op_flush_object(&w, &b);
+            uint8_t uq[2] = {1, 2}; Rsp r = w_create_primary(&w, &b, RH_NULL, 4, uq, 2, "");
+            if (r.rc == 0 && r.len >= 14) { uint32_t kh = g32(r.p + 10);
+                cmd_begin(&b, ST_SESSIONS, 0x15B /* MAC_Start */); b_u32(&b, kh); auth_pw(&b, "", 0); b_u16(&b, 0); b_u16(&b, ALG_NULL); Rsp ms = run(&b);
+                if (ms.rc == 0) { cmd_begin(&b, ST_SESSIONS, CC_SequenceUpdate); b_u32(&b, g32(ms.p + 10)); auth_pw(&b, "", 0); b_2b(&b, "0123456789abcdefXYZ", 19); run(&b); }
+                cmd_begin(&b, ST_NO_SESSIONS, CC_FlushContext); b_u32(&b, kh); run(&b); } }
         if (h % 2) { tpm2_shutdown(&b, 1); }          /* Shutdown(STATE) data in the blob */
         Blob perm = {0}, vol = {0}; unsigned char *p = NULL; uint32_t n = 0;
         if (TPMLIB_GetState(TPMLIB_STATE_PERMANENT, &p, &n)) die("C06 getstate"); blob_set(&perm, p, n); free(p); p = NULL;
